@@ -593,9 +593,14 @@ func (r *runner) sweep(cs caseSpec, strs [][]string) {
 		c.Fail("", cs, "%s: building the stored btree panicked: %s", cs, lib.PanicText(e))
 		return
 	}
+	fl := newFlight()
+	defer fl.done()
 	for _, ops := range strs {
 		cs.Ops = ops
+		hung := cs
+		fl.begin(func() (any, string) { return hung, hung.String() })
 		n, msg, at := runCase(cs, p, palt)
+		fl.end()
 		steps += n
 		if msg != "" {
 			cs.Ops = ops[:min(at+1, len(ops))]
@@ -667,6 +672,7 @@ func cross(lines []string, n int, fn func(sel []string)) {
 }
 
 func run(c *lib.Ctx) {
+	startWatchdog(c, "C09")
 	defer btree.SetSplit(btree.SetSplit(2))
 	r := &runner{c}
 	quick := c.Quick()
@@ -973,7 +979,13 @@ func replay(c *lib.Ctx, raw json.RawMessage) {
 		lib.Infra("unknown universe %q", cs.Universe)
 	}
 	defer btree.SetSplit(btree.SetSplit(2))
-	if _, msg, at := runCase(cs, nil, nil); msg != "" {
+	var msg string
+	var at int
+	if !withTimeout(func() { _, msg, at = runCase(cs, nil, nil) }) {
+		c.Fail("", cs, "%s: DOES NOT TERMINATE (no progress for %v)", cs, hangLimit)
+		return
+	}
+	if msg != "" {
 		cs.Ops = cs.Ops[:min(at+1, len(cs.Ops))]
 		c.Fail("", cs, "%s: after the last op: %s", cs, msg)
 	}
